@@ -32,6 +32,10 @@ MOVERS = [
     ('rall0', [V_('X')], ('conj', ('call', 'retract', [('F', 'd0', [V_('X')])]), ('call', 'retractall', [('F', 'd0', [('_',)])])), True),
     ('rall2', [V_('X')], ('conj', ('call', 'retract', [('F', 'd2', [V_('X')])]), ('call', 'retractall', [('F', 'd2', [V_('X')])])), True),
     ('rpair', [V_('X'), V_('Y')], ('conj', ('call', 'retract', [('F', 'd0', [V_('X')])]), ('call', 'retract', [('F', 'd0', [V_('Y')])])), True),
+    # two uses of the facts of one predicate open at the same time (each use works on a copy of its own)
+    ('two0', [V_('X'), V_('Y')], ('conj', ('call', 'd0', [V_('X')]), ('call', 'd0', [V_('Y')])), True),
+    ('two2', [V_('X'), V_('Y')], ('conj', ('call', 'd2', [V_('X')]), ('call', 'd2', [V_('Y')])), True),
+    ('usert', [V_('X'), V_('Y')], ('conj', ('call', 'd0', [V_('X')]), ('call', 'retract', [('F', 'd0', [V_('Y')])])), True),
     ('rkeep', [V_('X'), V_('Y')], ('conj', ('call', 'retract', [('F', 'd1', [V_('X'), V_('Y')])]),
                                    ('conj', ('call', 'retractall', [('F', 'd1', [('_',), V_('Y')])]), ('call', 'assertz', [('F', 'd1', [V_('Y'), V_('X')])]))), True),
 ]
@@ -110,8 +114,15 @@ def history(rnd, length):
             ops.append(('query', rnd.choice(['azq', 'aar']), ('all',),
                         [fact_term(name, args), v(rnd.randrange(2)), [Sym('a'), rnd.choice(['a', 'b'])], fact_term(name, pat)]))
         elif r < 0.92:
-            ops.append(('clear',))
-            ops.append(('load', 'overwrite', HELPERS + MOVERS))
+            if rnd.random() < 0.5:
+                # a fact with a variable below the top level, then two goals on it at the same time
+                nm = rnd.choice(['d0', 'd2'])
+                ops.append(('assert', nm, rnd.choice(['a', 'z']), [[Sym('f'), 'f', v(3)] if rnd.random() < 0.6 else [Sym('f'), 'g', [Sym('a'), 'a'], [Sym('f'), 'f', v(3)]]]))
+                p1, p2 = [Sym('f'), 'f', [Sym('a'), 'a']], [Sym('f'), 'f', rnd.choice([[Sym('a'), 'b'], v(5)])]
+                ops.append(('query', {'d0': rnd.choice(['two0', 'usert']), 'd2': 'two2'}[nm], rnd.choice([('all',), ('stop', 1)]), [p1, p2]))
+            else:
+                ops.append(('clear',))
+                ops.append(('load', 'overwrite', HELPERS + MOVERS))
         elif r < 0.985:
             m = rnd.choice(['mv0', 'mv2', 'nest', 'rmw', 'rall0', 'rall2', 'rpair', 'rkeep', 'rall0', 'rpair'])
             nargs = {'rall0': 1, 'rall2': 1, 'rpair': 2, 'rkeep': 2}.get(m, 0)
@@ -162,6 +173,14 @@ def c13_program(rnd):
         for g in reversed(goals[:-1]):
             body = ('conj', g, body)
         clauses.append(('t%d' % ci, [sv('X'), sv('W')] if rnd.random() < 0.6 else [], body, True))
+    # facts of arity 2: a variable shared between *different* arguments stays shared in the copy
+    goals = [('call', '=', [sv(rnd.choice(vars_)), c13_term(rnd, vars_, 1)]) for _ in range(rnd.randint(0, 2))]
+    goals.append(('call', rnd.choice(['assertz', 'asserta']), [('F', 'r', [c13_term(rnd, vars_[:2], 1), c13_term(rnd, vars_[:2], 1)])]))
+    goals.append(('call', 'r', [c13_term(rnd, vars_, 1), c13_term(rnd, vars_, 1)]))
+    body = goals[-1]
+    for g in reversed(goals[:-1]):
+        body = ('conj', g, body)
+    clauses.append(('s2', [sv('X'), sv('W')], body, True))
     # a body that uses one fact twice
     clauses.append(('twice', [sv('A'), sv('B')], ('conj', ('call', 'p', [sv('A')]), ('call', 'p', [sv('B')])), True))
     clauses.append(('twice2', [sv('A'), sv('B'), sv('C')],
@@ -178,8 +197,16 @@ def c13_history(rnd):
         if r < 0.45:
             name, ar = rnd.choice(tnames)
             ops.append(('query', name, rnd.choice([('all',), ('stop', 1)]), [pattern_term(rnd, 3) for _ in range(ar)]))
-        elif r < 0.6:
+        elif r < 0.52:
             ops.append(('assert', 'p', rnd.choice(['a', 'z']), [value_term(rnd, 3, 0.4)]))
+        elif r < 0.6:
+            if rnd.random() < 0.5:
+                ops.append(('assert', 'r', rnd.choice(['a', 'z']), [value_term(rnd, 2, 0.6), value_term(rnd, 2, 0.6)]))
+            else:
+                ops.append(('query', 's2', rnd.choice([('all',), ('stop', 1)]), [pattern_term(rnd, 3), pattern_term(rnd, 3)]))
+            ops.append(('query', 'r', ('all',), [[Sym('a'), 'a'], [Sym('a'), 'b']]))
+            ops.append(('query', 'r', ('all',), [v(21), [Sym('a'), 'b']]))
+            ops.append(('query', 'r', ('all',), [v(21), v(22)]))
         elif r < 0.8:
             ops.append(('query', 'twice', ('all',), [pattern_term(rnd, 3), pattern_term(rnd, 3)]))
         else:
@@ -238,6 +265,13 @@ def c14_program(rnd):
     clauses.append(('er', [('V', 'X')], ('conj', ('call', 'd', [('V', 'X')]), ('call', 'retractall', [('F', 'd', [('_',)])])), True))
     clauses.append(('era', [('V', 'X')], ('conj', ('call', 'd', [('V', 'X')]), ('conj', ('call', 'retract', [('F', 'd', [('V', 'Y')])]),
                                           ('call', 'assertz', [('F', 'd', [('F', 'n', [('V', 'Y')])])]))), True))
+    # ... removes a later fact *and* adds one: the number of facts is what the suspended retract left behind
+    clauses.append(('aba', [('V', 'X'), ('V', 'Y')], ('conj', ('call', 'retract', [('F', 'd', [('V', 'X')])]),
+                                                      ('conj', ('call', 'once', [('F', 'retract', [('F', 'd', [('V', 'Y')])])]),
+                                                       ('call', 'assertz', [('F', 'd', [('A', 'n')])]))), True))
+    clauses.append(('aba2', [('V', 'X')], ('conj', ('call', 'retract', [('F', 'd', [('V', 'X')])]),
+                                           ('conj', ('call', 'once', [('F', 'retract', [('F', 'd', [('V', 'Y')])])]),
+                                            ('call', 'asserta', [('F', 'd', [('V', 'Y')])]))), True))
     return clauses
 
 
@@ -258,8 +292,8 @@ def c14_history(rnd):
         elif r < 0.84:
             ops.append(('query', 'upd', ('all',), []))
         elif r < 0.93:
-            m = rnd.choice(['rr', 'rr2', 'er', 'era'])
-            ops.append(('query', m, rnd.choice([('all',), ('all',), ('stop', 1), ('stop', 2)]), [v(0), v(1)][:2 if m == 'rr2' else 1]))
+            m = rnd.choice(['rr', 'rr2', 'er', 'era', 'aba', 'aba2', 'aba'])
+            ops.append(('query', m, rnd.choice([('all',), ('all',), ('stop', 1), ('stop', 2)]), [v(0), v(1)][:2 if m in ('rr2', 'aba') else 1]))
         else:
             ops.append(('query', 'grow', rnd.choice([('all',), ('stop', 2)]), [v(0)]))
         ops.extend(rb)
